@@ -399,7 +399,11 @@ func variadicConsts(v ssa.Value) []string {
 		}
 		for _, r2 := range *ia.Referrers() {
 			if st, ok := r2.(*ssa.Store); ok {
-				if k, isK := st.Val.(*ssa.Const); isK && k.Value != nil {
+				val := st.Val
+				if mi, isMI := val.(*ssa.MakeInterface); isMI {
+					val = mi.X
+				}
+				if k, isK := val.(*ssa.Const); isK && k.Value != nil {
 					out = append(out, k.Value.ExactString())
 				} else {
 					out = append(out, "?")
